@@ -5,6 +5,7 @@ package props
 // DESIGN.md §2.2.  Nothing here reads the wall clock or an RNG.
 
 import (
+	"io"
 	_ "time/tzdata" // the zone database comes with the binary
 
 	"encoding/json"
@@ -160,6 +161,8 @@ type NodeFlags struct {
 	InvCheckPeriod        uint `json:"inv_check_period,omitempty"`
 	// TimeZone is the machine's local time zone (TZ / /etc/localtime), "" = UTC
 	TimeZone string `json:"time_zone,omitempty"`
+	// DebugLog: the node runs with --log_level debug (every log call formats its arguments)
+	DebugLog bool `json:"debug_log,omitempty"`
 }
 
 // NodeTimeZones are local time zones a node's machine may be set to.
@@ -193,7 +196,11 @@ func newAppWith(db dbm.DB, f NodeFlags) (*c4eapp.App, appparams.EncodingConfig) 
 	if f.SkipGenesisInvariants {
 		opts = nodeAppOptions{crisis.FlagSkipGenesisInvariants: true}
 	}
-	a := c4eapp.New(log.NewNopLogger(), db, nil, true, map[int64]bool{}, "/nonexistent-verif-home", f.InvCheckPeriod,
+	logger := log.NewNopLogger()
+	if f.DebugLog {
+		logger = log.NewTMLogger(io.Discard)
+	}
+	a := c4eapp.New(logger, db, nil, true, map[int64]bool{}, "/nonexistent-verif-home", f.InvCheckPeriod,
 		enc, opts)
 	return a, enc
 }
